@@ -32,7 +32,7 @@ DIR_NAMES = [
     "trail ", "back\\slash", "at@home", "com,ma", "star*", "(paren)", "[sq]", "{cur}", "dollar$", "ex!cl", "pi|pe",
     "caret^", "gr`ave", "a\tb", "KKelvin", "İstanbul", "x y", "emoji\U0001F35D", "UPPER", "lower",
     "Tea2Go", "ABCdef", "a_b-c d", "é", "mdx", "readme", "index",
-    " ", "\u3000", "  ", "preserves", "preserves", "conserves & jams", "serves you right", "Reserves", "it deserves",
+    " ", "\u3000", "  ", ".staging", ".staging", ".cache dir", "preserves", "preserves", "conserves & jams", "serves you right", "Reserves", "it deserves",
 ]
 STEMS = [
     "spag bol", "lasagne", "tikka_masala", "Saag Aloo", "q?r", "a#b", "100%", "50%25", "it's", 'quo"te', "a&b",
@@ -40,6 +40,7 @@ STEMS = [
     "a@b", "c,d", "st*r", "(p)", "[s]", "ex!", "g`r", "K", "\U0001F35D", "roti", "naan", "dal", "x.html",
     "readme2", "index2", "serves3", "a%2Fb", "%41", "%zz", "plus+plus", "preserves", "deserves more", "conserves",
     "x", "me", "e", "ex", "dex", "dme", "adme", "ndex", "eadme", "d",
+    ".kitchen-notes", ".kitchen-notes", ".x", ".hidden recipe",
 ]
 MD_EXTS = [".md", ".md", ".md", ".MD", ".Md", ".mD"]
 README_NAMES = ["README.md", "index.md", "readme.md", "Readme.MD", "INDEX.MD", "ReadMe.md", "Index.Md"]
@@ -47,11 +48,15 @@ ASSET_NAMES = [
     "pic.png", "photo 1.jpg", "data", "notes.txt", "archive.tar.gz", "ünï.svg", "q?.gif", "a#b.png", "100%.css",
     "x.html", "it's.pdf", 'd"q.bin', "a&b.js", "日本.webp", "UP.PNG", "a+b.ico", "semi;.txt", "%41.txt", "sp ace.md.txt",
     "no_ext.", "tab\t.txt", "readme.txt", "index.markdown", "c++tips.txt", "c++tips.txt", "1+1.png",
+    "notes;v2.txt", "pic;1.png", "notes;v2.txt", ".hidden.png", "a\\b.txt",
 ]
 TITLES = [
     "Spag Bol", "Lasagne", "Same", "Same", "Same", "same", "Tikka & Masala", "It's \"good\"", "日本のカレー", "Crème brûlée",
     "A", "B", "a", "Z", "É", "e", "100 ways", "Dal: the basics", "Roti (plain)", "Naan -- fast", "x > y", "Tea, two ways",
     "\U0001F35D pasta", "Äpfel", "apple", "Apple", "Zebra cake",
+    "A very long recipe title that goes on and on for well over sixty five characters, version one",
+    "A very long recipe title that goes on and on for well over sixty five characters, version two",
+    "Slow roasted shoulder of lamb with anchovies, rosemary, garlic and far too many potatoes",
     "Bread \\<quick\\>", "x<y", "a &amp;amp; b", "1 < 2 > 0", "Quick \\<easy\\> bakes", "R&amp;D \\<b\\>bold\\</b\\>",
 ]
 PREPS = ["for", "serves", "serve", "to serve", "makes", "serving", "For", "SERVES", "to make", "to  serves",
@@ -122,6 +127,8 @@ def enc_component(rng: random.Random, c: str, style: str) -> str:
         out = "".join(ch if ord(ch) > 127 and not ch.isspace() else quote(ch, safe="") for ch in c)
     else:
         out = quote(c, safe="")
+    if "%3B" in out and rng.random() < 0.7:
+        out = out.replace("%3B", ";")          # a literal ";" in a path segment belongs to the path
     if "%2B" in out and rng.random() < 0.7:
         out = out.replace("%2B", "+")          # a literal "+" is a plus sign in a URL path, not a space
     if style == "over":
@@ -230,7 +237,8 @@ def recipe_text(rng: random.Random, title: Optional[str], servings: Optional[int
     elif title is not None:
         h = "# " + title
         if servings is not None:
-            h += rng.choice([" ", "  "]) + rng.choice(PREPS) + " " + str(servings)
+            sp = [" ", " ", " ", "  ", "\u00a0", "\u2009", "\u3000", " \u00a0"]
+            h += rng.choice(sp) + rng.choice(PREPS) + rng.choice(sp) + str(servings) + rng.choice(["", "", "\u00a0"])
         lines += [h, ""]
     if fault == "compile":
         lines += ["    1 egg", "    fry(egg), (", ""]
@@ -325,11 +333,29 @@ def gen_skeleton(rng: random.Random, depth: int, max_depth: int, fan: int, budge
         names.add(nm)
         budget[0] -= 1
         ch.append({"k": "f", "name": nm, "role": "recipe"})
+        if rng.random() < 0.2:
+            # a local file that shares its stem with the recipe (leek.md + leek.jpg)
+            tw = st + rng.choice([".jpg", ".png", ".txt", ".pdf"])
+            if tw not in names:
+                names.add(tw)
+                ch.append({"k": "f", "name": tw, "role": "asset", "twin": True,
+                           "hex": bytes(rng.randrange(256) for _ in range(rng.randrange(4, 30))).hex()})
+    if depth < max_depth and rng.random() < 0.12 and "img" not in names and "img\\pic.txt" not in names:
+        # a file with a literal BACKSLASH in its name next to a directory img/ holding pic.txt
+        names.update(["img", "img\\pic.txt"])
+        ch.append({"k": "f", "name": "img\\pic.txt", "role": "asset", "twin": True,
+                   "hex": (b"BACKSLASH" + bytes(rng.randrange(256) for _ in range(6))).hex()})
+        ch.append({"k": "d", "name": "img", "ch": [{"k": "f", "name": "pic.txt", "role": "asset", "twin": True,
+                                                     "hex": (b"GENUINE" + bytes(rng.randrange(256) for _ in range(6))).hex()}]})
     for nm in _pick_names(rng, ASSET_NAMES, rng.randrange(0, 3), names):
         if is_md_name(nm) or is_readme_name(nm):
             continue
         ch.append({"k": "f", "name": nm, "role": "asset",
                    "hex": bytes(rng.randrange(256) for _ in range(rng.randrange(0, 40))).hex()})
+        if ";" in nm and nm.split(";")[0] and nm.split(";")[0] not in names and rng.random() < 0.7:
+            names.add(nm.split(";")[0])
+            ch.append({"k": "f", "name": nm.split(";")[0], "role": "decoy",
+                       "hex": (b"DECOY;" + bytes(rng.randrange(256) for _ in range(12))).hex()})
         if "+" in nm and nm.replace("+", " ") not in names and rng.random() < 0.6:
             names.add(nm.replace("+", " "))
             ch.append({"k": "f", "name": nm.replace("+", " "), "role": "decoy",
@@ -488,6 +514,10 @@ def gen_site(rng: random.Random, profile: str = "valid", size: str = "medium") -
     title_pool = rng.sample(TITLES, k=min(len(TITLES), 8))
     for dp, dn in dirs:
         dir_titles = [rng.choice(title_pool) for _ in dn["ch"]]
+        twins = [(dp + (c["name"],)) for c in dn["ch"] if c.get("twin")]
+        for c in dn["ch"]:
+            if c["k"] == "d" and c["name"] == "img":
+                twins += [(dp + ("img", g["name"])) for g in c["ch"] if g.get("twin")]
         for c, t in zip(dn["ch"], dir_titles):
             if c["k"] != "f" or "role" not in c:
                 continue
@@ -505,6 +535,11 @@ def gen_site(rng: random.Random, profile: str = "valid", size: str = "medium") -
                         links.append(md_link(rng, spell(rng, dp, rp, rng.choice(["rel", "abs"]), "plain")))
                     if rng.random() < 0.7:
                         serv = None
+                if twins and rng.random() < 0.7:
+                    # files that share a stem with a recipe / have a backslash in the name: linked and shown as images
+                    for tp in rng.sample(twins, k=min(len(twins), 2)):
+                        links.append(md_link(rng, spell(rng, dp, tp, rng.choice(["rel", "abs"]), rng.choice(["plain", "lower"])),
+                                             rng.random() < 0.5))
                 if rng.random() < 0.08:
                     t = ""
                 c["text"] = recipe_text(rng, t, serv, links)
@@ -521,16 +556,18 @@ def gen_site(rng: random.Random, profile: str = "valid", size: str = "medium") -
         plant_fault(rng, site, profile, tg, dirs)
     for _p, n in walk(base):
         n.pop("role", None)
+        n.pop("twin", None)
     return site
 
 
 FAULTS = ["multiple-readme", "readme-missing-title", "readme-malformed-title", "recipe-missing-title", "compile",
           "max-servings", "link-outside-dots", "link-outside-abs-symlink", "link-outside-rel-symlink",
           "link-outside-dir-symlink", "link-missing", "link-outside-encoded",
-          "title-with-scaled-value", "multiple-readme-same-name", "empty-recipe-block", "link-sibling-rel", "link-sibling-abs", "link-sibling-encoded", "link-sibling-symlink", "link-sibling-dir-symlink"]
+          "title-with-scaled-value", "multiple-readme-same-name", "empty-recipe-block", "link-sibling-rel", "link-sibling-abs", "link-sibling-encoded", "link-sibling-symlink", "link-sibling-dir-symlink",
+          "link-casetwin-rel", "link-casetwin-symlink"]
 
 
-SIBLING_NAMES = ["src-private", "src2", "src.bak", "src copy", "srcé"]
+SIBLING_NAMES = ["src-private", "src2", "src.bak", "src copy", "srcé", "Src", "SRC", "sRc"]
 
 
 def plant_fault(rng: random.Random, site: Dict[str, Any], profile: str, tg: Dict[str, Any], dirs: List[Any]) -> None:
@@ -603,6 +640,15 @@ def plant_fault(rng: random.Random, site: Dict[str, Any], profile: str, tg: Dict
     elif kind == "link-outside-encoded":
         add_carrier(rng.choice(["%2E%2E/" * (len(dp) + 1) + "outside/secret.bin", "%2e%2e/" * (len(dp) + 1) + "outside/secret.bin",
                                 "..%2F" * (len(dp) + 1) + "outside%2Fsecret.bin"]))
+    elif kind.startswith("link-casetwin"):
+        # the outside directory differs from the source root ONLY in letter case (src / Src)
+        sib = rng.choice(["Src", "SRC", "sRc"])
+        tail = rng.choice(["secret.bin", "deep/s.txt"])
+        if kind == "link-casetwin-rel":
+            add_carrier(rng.choice([ups + "/" + sib + "/" + tail, "/../" + sib + "/" + tail]), rng.random() < 0.4)
+        else:
+            dn["ch"].append(L("twin peek.bin", rng.choice(["{BASE}/" + sib + "/secret.bin", ups + "/" + sib + "/secret.bin"])))
+            add_carrier("twin%20peek.bin", rng.random() < 0.4)
     elif kind.startswith("link-sibling"):
         # the target lives in a SIBLING of the source root whose name starts with the root's name (src-private, src2 ...):
         # outside by path components, "inside" for a string-prefix comparison
